@@ -32,6 +32,8 @@ async def realise(ctx, sq, n, scen, rnd, bigpost=False):
     o = await peers.Origin(rec, responder, stall=1.0 if bigpost else 0.0, rcvbuf=4096 if bigpost else None).start()
     base = 'http://127.0.0.1:%d/c05/%d/' % (o.port, n)
     keys = ['k%d_%d' % (n, i + 1) for i in range(N)]
+    if bigpost:        # the POST additionally waits a second for a url_rewrite helper: no body consumer at all meanwhile
+        keys = [k + ('_slow' if kinds[i] == 'post' else '') for i, k in enumerate(keys)]
     for i, k in enumerate(kinds):
         if k == 'hit':
             await peers.simple_get(rec, sq.port, base + keys[i], headers=[('X-Verif-Warm', '1')], vid='w')
@@ -45,7 +47,7 @@ async def realise(ctx, sq, n, scen, rnd, bigpost=False):
         pbody = b'hello'
         if bigpost and m == 'POST':
             unit = ('GET %ssmug HTTP/1.1\r\nHost: 127.0.0.1:%d\r\n\r\n' % (base, o.port)).encode()
-            pbody = (unit * (200000 // len(unit) + 1))[:200000 + n % 97]
+            pbody = (unit * (300000 // len(unit) + 1))[:300000 + n % 97]
         stream += peers.request_bytes(m, base + keys[i], [], body=(pbody if m == 'POST' else None), vid='%d.%d' % (n, i + 1), host='127.0.0.1:%d' % o.port)
     ev = [{'e': 'Sent', 'keys': keys}]
     try:
@@ -80,7 +82,9 @@ def run(ctx):
         if not ctx.thorough:
             rnd.shuffle(part)
             part = part[:120]
-        sq = squidctl.Squid(ctx, tree, name='c05-%d' % prefetch, clock=False, conf_extra='pipeline_prefetch %d\n' % prefetch, cache_mem='64 MB')
+        sq = squidctl.Squid(ctx, tree, name='c05-%d' % prefetch, clock=False, conf_extra='pipeline_prefetch %d\n' % prefetch +
+                            'url_rewrite_program /usr/bin/env python3 %s 1.0\nurl_rewrite_children 16 startup=4 idle=1 concurrency=0\n' % squidctl.stage(os.path.join(VERIF, 'e2e', 'slow_helper.py')) +
+                            'acl slowc05 urlpath_regex _slow$\nurl_rewrite_access allow slowc05\nurl_rewrite_access deny all\n', cache_mem='64 MB')
         sq.start()
         try:
             async def main():
